@@ -289,7 +289,9 @@ def run(ctx):
                 edges.append([c, i, j, k])      # a parallel link of the same class: two identical relation lines
         specs.append({"verts": [brng.choice(["Vertex", "VSub", "VBoth"]) for _ in range(nbig)], "edges": edges,
                       "uni": list(range(nbig)), "big": True})
-    n_random = 1000 if quick else 6000
+    # per shard; the default-style tables ('.+' renders every dir() entry of every vertex, character by character)
+    # dominate the cost: ~17 ms per rendering
+    n_random = 1000 if quick else 1200
     k = 0
     for n in range(len(specs) + n_random):
         if n < len(specs):
